@@ -80,7 +80,7 @@ Ltac dcase t H := let bb := fresh "bb" in remember t as bb eqn:H; destruct bb; s
 Lemma Inv_step s l : Inv s -> Inv (step s l).
 Proof.
   intros I.
-  destruct l as [| | |c|c|]; cbn [step].
+  destruct l as [| | | |c|c|c|]; cbn [step].
   - (* LStart *)
     dcase (v_started s && negb (v_done s)) Hst; [exact I|].
     pose proof I as [I1 I2 I3 I4 I5 I6 I7 I8 I9].
@@ -122,9 +122,41 @@ Proof.
       * destruct (I1 H) as [_ [? [? ?]]]; auto.
       * destruct (I2 H H0) as [Hx _]; congruence.
       * destruct (I3 H) as [_ ?]; auto.
+  - (* LOpen *)
+    dcase (v_listening s) Hl; pose proof I as [I1 I2 I3 I4 I5 I6 I7 I8 I9].
+    + assert (Hns : v_stopreq s = false)
+        by (destruct (v_stopreq s) eqn:E; auto; destruct (I3 eq_refl); congruence).
+      assert (Hst : v_started s = true)
+        by (destruct (v_started s) eqn:E; auto; destruct (I1 eq_refl); congruence).
+      destruct (I2 Hst Hns) as [_ Hd].
+      constructor; unfold set_conns; cbn; intros; auto; try congruence.
+      * destruct (Nat.lt_ge_cases c (length (v_conns s))) as [Hlt|Hge].
+        -- rewrite nth_error_app1 in H by exact Hlt. eauto.
+        -- rewrite nth_error_app2 in H by exact Hge.
+           destruct (c - length (v_conns s)) as [|[|n]]; cbn in H; try discriminate.
+           injection H as <-. reflexivity.
+    + constructor; cbn; intros; eauto.
+      * destruct (I1 H) as [_ [? [? ?]]]; auto.
+      * destruct (I2 H H0) as [Hx _]; congruence.
+      * destruct (I3 H) as [_ ?]; auto.
+  - (* LHello *)
+    destruct (nth_error (v_conns s) c) as [k|] eqn:Hk; [|exact I].
+    dcase (k_client_open k && k_session k && negb (k_hello k)) Hopen; [|exact I]. pose proof I as [I1 I2 I3 I4 I5 I6 I7 I8 I9].
+    apply andb_true_iff in Hopen. destruct Hopen as [Hopen _].
+    apply andb_true_iff in Hopen. destruct Hopen as [Ho Hse].
+    assert (Hnd : v_done s = false).
+    { apply Bool.not_true_is_false. intros E. pose proof (I5 E) as Hs.
+      apply (I4 Hs) in E. unfold all_sessions_ended in E. rewrite forallb_forall in E.
+      apply nth_error_In in Hk. apply E in Hk. rewrite Hse in Hk. discriminate. }
+    apply Inv_settle; unfold set_conns; cbn; intros; auto; try congruence.
+    + destruct (I1 H) as [_ [_ [_ Hc]]]. rewrite Hc in Hk. destruct c; discriminate.
+    + rewrite nth_error_upd in H.
+      destruct (Nat.eqb c c0); [|eauto].
+      destruct (Nat.ltb c (length (v_conns s))); [|discriminate]. injection H as <-. reflexivity.
   - (* LSend *)
     destruct (nth_error (v_conns s) c) as [k|] eqn:Hk; [|exact I].
-    dcase (k_client_open k && k_session k) Hopen; [|exact I]. pose proof I as [I1 I2 I3 I4 I5 I6 I7 I8 I9].
+    dcase (k_client_open k && k_session k && k_hello k) Hopen; [|exact I]. pose proof I as [I1 I2 I3 I4 I5 I6 I7 I8 I9].
+    apply andb_true_iff in Hopen. destruct Hopen as [Hopen _].
     apply andb_true_iff in Hopen. destruct Hopen as [Ho Hse].
     assert (Hnd : v_done s = false).
     { apply Bool.not_true_is_false. intros E. pose proof (I5 E) as Hs.
